@@ -2,11 +2,15 @@
     Property theorems only.  The whole-image model [akai_export] (AkaiImage.v) computes with
     LOGICAL contents; the theorems below tie those contents to the byte-window views the real
     code reads through (C08), to the allocation chains (C07) and to the transcoder (C12), for
-    every chain order and every length.  The composition over a whole image (partition scan,
-    volume table, file table, naming, pairing) is carried by the end-to-end correspondence:
-    akai_export against the real `export` on every generated image. *)
+    every chain order and every length.  The COMPOSITION over a whole image (partition scan,
+    volume table, allocation table, file table, sample header, naming, pairing, transcoding) is
+    theorem [akai_export_correct] at the end: for every logical image and every valid
+    allocation (AkaiSpec.v), [akai_export] of the serialised bytes is exactly the expected list
+    of files.  [akai_export] itself is tied to the real `export` by the end-to-end
+    correspondence run on every generated image. *)
 From SE Require Import Base Codecs Fat Cue Names Transcode Stream FatProofs StreamProofs
-     TranscodeProofs TranscodeUnbounded NamesProofs AkaiChainProofs AkaiImage AkaiProofs.
+     TranscodeProofs TranscodeUnbounded NamesProofs AkaiChainProofs AkaiImage AkaiProofs
+     AkaiSpec AkaiCompose.
 
 (** A file read the way the real code reads it - StreamWrapper(size) over the sector-chained
     Segment over the partition window over the image file - is a well-formed view (so the C08
@@ -107,4 +111,89 @@ Proof.
   - unfold part_ok. cbn [p_off p_sectors]. split; [lia|]. split; [lia|]. vm_compute. discriminate.
   - repeat constructor; cbn; lia.
   - vm_compute. reflexivity.
+Qed.
+
+(** * The composition: export of a serialised logical image
+
+    Specification side (AkaiSpec.v): a logical image [L] (partitions of [lp_sectors] sectors,
+    each a list of volumes (name, type 1|3), each a list of sample files with their directory
+    name and type, the 140-byte-header fields and the PCM bytes), an allocation [A] (for every
+    volume directory and every file the sectors it occupies, in chain order), the serialiser
+    [akai_serialise L A] writing the on-disc format, validity [image_alloc_ok L A] (sectors
+    pairwise distinct inside a partition, data sectors 3 <= s < size <= 11386, enough sectors for
+    the content - a file may fill its last sector exactly -, directories as reserved-flag runs of
+    consecutive sectors not adjacent to another run, names valid AKAI text, markers
+    0 <= start < end <= count, file length = 140 + 2*count < 2^24, at most 100 volumes) and
+    [image_plain L] (sibling names pairwise distinct after export-name sanitising and no
+    left/right partner present: the renaming and pairing behaviour is C05/C06).  NOTHING is
+    assumed about the order or contiguity of a file's sectors, the number of partitions,
+    volumes or files. *)
+
+(** (a) the partition header written at any offset of any image parses back to the written size,
+    volume entries and allocation table *)
+Theorem akai_partition_header_parses :
+  forall P AP, part_alloc_ok P AP -> forall pre post,
+    parse_partition (pre ++ partition_bytes P AP ++ post) (zlen pre) = Ok (part_of P AP (zlen pre)).
+Proof. exact parse_partition_written. Qed.
+Print Assumptions akai_partition_header_parses.
+
+(** (b) following the written allocation-table words from a file's first sector gives the
+    allocation's sector list, every sector linked exactly once (the hypotheses of
+    akai_chain_to_content), whatever the order of the sectors *)
+Theorem akai_written_chain :
+  forall items n it,
+    NoDup (all_secs items) -> secs_in items n -> n <= SAT_ENTRIES ->
+    In it items -> it_dir it = false -> it_secs it <> [] ->
+    raw_chain (S (length (sat_words items))) (sat_words items) [] (hd 0 (it_secs it)) = Some (it_secs it)
+    /\ linked_once (sat_words items) (it_secs it) = true.
+Proof.
+  intros items n it H1 H2 H3 H4 H5 H6. split.
+  - exact (file_raw_chain items n it H1 H2 H3 H4 H5 H6).
+  - exact (file_linked_once items n it H1 H2 H3 H4 H5 H6).
+Qed.
+Print Assumptions akai_written_chain.
+
+(** (d) the 140-byte header and the data window of a written sample file parse back to the
+    written fields; the PCM is the bytes between the markers *)
+Theorem akai_sample_header_parses :
+  forall f nm ty sz st, sample_ok f ->
+    parse_sample {| fe_name := nm; fe_type := ty; fe_size := sz; fe_start := st; fe_content := file_body f |}
+    = Some (sample_of nm f).
+Proof. exact parse_sample_written. Qed.
+Print Assumptions akai_sample_header_parses.
+
+(** THE COMPOSED THEOREM.  For every valid (L, A) with plain sibling names, [export] of the
+    serialised image writes exactly: per partition, volume and file in directory order, one
+    file at [partition name; volume export name; file export name], with the header's rate
+    (44100 when stored as 0), one channel, and as PCM the bytes between the start and end
+    markers - and nothing else.  [pn] are the partition names "A:", "B:", ... as sanitised by
+    the exporter (computed by the same closed expression the exporter uses; they are the
+    letters for up to 26 partitions, second theorem). *)
+Theorem akai_export_correct :
+  forall L A pn,
+    image_alloc_ok L A -> image_plain L -> partition_export_names (length L) = Ok pn ->
+    akai_export (akai_serialise L A) = Ok (expected pn L).
+Proof. exact akai_export_correct_lemma. Qed.
+Print Assumptions akai_export_correct.
+
+Theorem akai_export_correct_letters :
+  forall L A,
+    image_alloc_ok L A -> image_plain L -> (length L <= 26)%nat ->
+    akai_export (akai_serialise L A) = Ok (expected (partition_letters (length L)) L).
+Proof. exact akai_export_correct_letters_lemma. Qed.
+Print Assumptions akai_export_correct_letters.
+
+(** Non-vacuity: the example image of AkaiSpec.v (one 9-sector partition, volume "VOL 1" with its
+    directory in sector 4, "KICK" in sector 6 with markers 1..3 and a stored rate of 0, "SNARE.1"
+    of 8340 bytes stored BACKWARDS in sectors 8 then 7) satisfies the hypotheses; the theorem
+    gives its export, whose two files are spelled out. *)
+Example c01_composed_example :
+  image_alloc_ok ex_logical ex_alloc /\ image_plain ex_logical /\
+  akai_export (akai_serialise ex_logical ex_alloc) = Ok (expected [[65]] ex_logical) /\
+  map (fun w => (w_path w, w_rate w, w_channels w, zlen (w_pcm w), firstn 4 (w_pcm w))) (expected [[65]] ex_logical)
+  = [([[65]; [86; 79; 76; 32; 49]; [75; 73; 67; 75]], 44100, 1, 4, [3; 4; 5; 6]);
+     ([[65]; [86; 79; 76; 32; 49]; [83; 78; 65; 82; 69; 46; 49]], 22050, 1, 8200, [0; 1; 2; 3])].
+Proof.
+  split; [exact ex_alloc_ok|]. split; [exact ex_plain|]. split; [exact ex_export|].
+  vm_compute. reflexivity.
 Qed.
